@@ -16,8 +16,30 @@ import (
 	"context"
 )
 
+// hasReplayDriver: used for obligations that were never discharged. A driver may stand witness
+// for such an obligation only if it says so: a line "// witnesses: a, b" lists substrings of
+// the obligation names whose failure the driver's scenario demonstrates.
 func hasReplayDriver(r *Report, o *Obl) bool {
-	return findReplayDriver(r, o) != ""
+	d := findReplayDriver(r, o)
+	if d == "" {
+		return false
+	}
+	b, err := os.ReadFile(d)
+	if err != nil {
+		return false
+	}
+	for _, l := range strings.Split(string(b), "\n") {
+		l = strings.TrimSpace(l)
+		if !strings.HasPrefix(l, "// witnesses:") {
+			continue
+		}
+		for _, w := range strings.Split(strings.TrimPrefix(l, "// witnesses:"), ",") {
+			if w = strings.TrimSpace(w); w != "" && strings.Contains(o.Name, w) {
+				return true
+			}
+		}
+	}
+	return false
 }
 
 func findReplayDriver(r *Report, o *Obl) string {
